@@ -293,7 +293,8 @@ class incref_forward_block_op(blocker_base_op):
         if self.blocker not in plan.blockers_refcnt:
             l = plan.state.add_limiter(self.blocker, self.key)
         else:
-            l = []
+            # already a limiter; whatever it matches by now (forced vdb loads) still conflicts
+            l = plan.state.find_atom_matches(self.blocker, key=self.key)
         plan.rev_blockers.setdefault(self.choices, []).append((self.blocker, self.key))
         plan.blockers_refcnt.add(self.blocker)
         return l
